@@ -134,10 +134,11 @@ int main(int argc, char** argv)
 	for(unsigned n = 1; n <= nfull; n++) orders.push_back(n);
 	if(mc::quick()) for(unsigned n : {255u, 256u, 511u, 512u}) orders.push_back(n);
 	else for(unsigned n : {1500u, 2000u, 2047u, 2048u, 3000u, 4000u}) orders.push_back(n);
-	std::vector<std::pair<double, double>> ivs = {{-1, 1}, {0, 1}, {2, 7}, {-1e3, 1e-3}, {1e6, 1e6 + 1}, {1, -1}, {7, 2}};
+	// (the last three: intervals narrower than any absolute width threshold, still resolved by doubles because they sit at the origin)
+	std::vector<std::pair<double, double>> ivs = {{-1, 1}, {0, 1}, {2, 7}, {-1e3, 1e-3}, {1e6, 1e6 + 1}, {1, -1}, {7, 2}, {0, 1e-20}, {3e-27, 7e-27}, {-1e-300, 1e-300}};
 	mc::alphabet("orders", orders.size());
 	mc::alphabet("intervals", ivs.size());
-	mc::bound("rule", "every order n=1.." + std::to_string(nfull) + " (complete) plus large orders, x 7 intervals (shifted, far from the origin, reversed); per rule: node order/inclusion/symmetry, weight sign/symmetry/sum, exactness on the Legendre basis and on monomials for every degree k<=min(2n-1,60), agreement with a long-double Newton reference started from Tricomi's guess, identical bits from the three Integrate_Gauss_Legendre overloads, length mismatch rejected; non-trivial = rules with n>=2");
+	mc::bound("rule", "every order n=1.." + std::to_string(nfull) + " (complete) plus large orders, x 10 intervals (shifted, far from the origin, reversed, narrower than 1e-16); all ordered pairs of orders up to 32/64 computed back to back (identical bits whatever was computed before); per rule: node order/inclusion/symmetry, weight sign/symmetry/sum, exactness on the Legendre basis and on monomials for every degree k<=min(2n-1,60), agreement with a long-double Newton reference started from Tricomi's guess, identical bits from the three Integrate_Gauss_Legendre overloads, length mismatch rejected; non-trivial = rules with n>=2");
 	unsigned long long unit = 0;
 	// larger orders first so that shards are balanced
 	std::sort(orders.begin(), orders.end(), std::greater<unsigned>());
@@ -146,6 +147,34 @@ int main(int argc, char** argv)
 		if(!mc::mine(unit++)) continue;
 		if(mc::out_of_time("C12")) break;
 		for(auto& iv : ivs) check_rule(n, iv.first, iv.second);
+	}
+	// call histories: the rule of order n2 does not depend on the order computed before it (all ordered pairs, every entry point)
+	{
+		unsigned N = mc::thorough() ? 64 : 32;
+		auto f = [](double x) { return std::exp(0.3 * x) + x * x * x; };
+		for(unsigned n2 = 1; n2 <= N; n2++)
+		{
+			if(!mc::mine(unit++)) continue;
+			Compute_Gauss_Legendre_Roots_and_Weights(N + 7, -1, 1);
+			auto base = Compute_Gauss_Legendre_Roots_and_Weights(n2, 0.5, 2.0);
+			Compute_Gauss_Legendre_Roots_and_Weights(N + 7, -1, 1);
+			double ibase = Integrate_Gauss_Legendre(f, 0.5, 2.0, n2);
+			for(unsigned n1 = 1; n1 <= N; n1++)
+				for(int entry = 0; entry < 2; entry++)
+				{
+					// (an unrelated order first, so that the call with n1 is not itself answered from what n2 left behind)
+					Compute_Gauss_Legendre_Roots_and_Weights(N + 7, -1, 1);
+					if(entry == 0) Compute_Gauss_Legendre_Roots_and_Weights(n1, -1, 1); else Integrate_Gauss_Legendre(f, -3, 1, n1);
+					auto r = Compute_Gauss_Legendre_Roots_and_Weights(n2, 0.5, 2.0);
+					Compute_Gauss_Legendre_Roots_and_Weights(N + 7, -1, 1);
+					if(entry == 0) Compute_Gauss_Legendre_Roots_and_Weights(n1, 2, 5); else Integrate_Gauss_Legendre(f, 0.5, 2.0, n1);
+					double iv = Integrate_Gauss_Legendre(f, 0.5, 2.0, n2);
+					mc::count("history_pairs", 1);
+					bool same = r.size() == base.size() && mc::same_bits(iv, ibase);
+					for(size_t i = 0; same && i < r.size(); i++) same = mc::same_bits(r[i][0], base[i][0]) && mc::same_bits(r[i][1], base[i][1]);
+					if(!same) fail("n=" + std::to_string(n2) + ",previous_order=" + std::to_string(n1) + ",entry=" + std::to_string(entry), "rule_depends_on_previous_call", "the rule (or the integral) of order " + std::to_string(n2) + " differs after a call with order " + std::to_string(n1));
+				}
+		}
 	}
 	mc::count("evaluations", mc::ctx().counters["rules"]);
 	mc::count("distinct_nontrivial", mc::ctx().counters["rules"]);
